@@ -368,7 +368,16 @@ def run(chk):
         eps = summ.fold_accumulators(eps)
         r, m, nz, al, ky = [p["n"] for p in en.params]
         binit = [p for p in eps if p["kind"] == "store" and p["lv"] == P(r, "b") and p["op"] == "="]
-        okn = len(binit) == 1 and binit[0]["val"] == sym.add(sym.sym(m), ("call", "dtot32", (sym.sym(nz),)))
+        # b is assigned once, and what it is assigned is linear in dtot32(noise) and in the message with coefficient 1 (the mask
+        # terms may be part of the same expression); no other statement on b mentions the noise
+        Dn, Mn = ("call", "dtot32", (sym.sym(nz),)), sym.sym(m)
+        okn = len(binit) == 1 and not binit[0]["loops"] and not binit[0]["guards"]
+        if okn:
+            for atom in (Dn, Mn):
+                lin = sym.linear_in(binit[0]["val"], atom)
+                okn = okn and lin is not None and lin[0] == I(1) and not sym.contains(lin[1], atom)
+            others = [p for p in eps if p["kind"] == "store" and p["lv"] == P(r, "b") and p is not binit[0]]
+            okn = okn and not any(sym.contains(p["val"], Dn) or sym.contains(p["val"], sym.sym(nz)) for p in others)
         chk.require(okn, "R2", "lweSymEncryptWithExternalNoise adds the supplied noise to b exactly once", where=en.where, ok="b = message + dtot32(noise) + <a,s>",
                     bad=[summ.show_piece(p)[:80] for p in binit], variant=vn)
         # TLWE: every b coefficient gets its own Gaussian
